@@ -73,3 +73,8 @@ CLAIMED['C09'] = dict(
     text='Proof per function of the 2-D chain: blockshape validation, header words, trace-group capture (unrolled per group extent 4/8/16[/32]), producer layout agreement (spec_off2) and hash, '
          'reader construction (2-D branch incl. sample axis), 2-D loaders, read_subplane/get_trace windows, refusal of volume-style reads, gen_trace_header -- all trace/sample counts, per valid setting.',
     note='2-D detection in detect_geometry and the accessors of seismic_zfp.open not under contract; AX-ZFP 2-D, AX-SEGYIO-R; found and fixed D10 (2-D hash covered padding traces)')
+CLAIMED['C08'] = dict(
+    text='Proof per function: inferred axis (get_range), irregular header words, placement by (inline, crossline) lookup with zero-filled holes and padding (guarded family stores), '
+         'producer layout agreement for the zero-filled grid, reader structured flag, population mask and ordinal-to-grid mapping in get_trace. All grids / populations; '
+         'traces_ref construction and header reads of irregular files (masked arrays in read_variant_headers) not under contract.',
+    note='AX-NP-WHERE, AX-SEGYIO-R; io thread func unrolled for b0 in {4,8}; found and fixed D9 (increments written to the wrong words)')
